@@ -51,7 +51,7 @@ def validate_balanced(ctx, obs, timeout=14000, nshards=None):
     return sorted(out)
 
 
-FLAGS = {"sym": ["symbol produced / size known", "codeword count / padding", "matrix == reference"], "ecc": ["codewords with parity"],
+FLAGS = {"sym": ["symbol produced / size known", "codeword count / padding / symbol is the first admissible one under the hints", "matrix == reference"], "ecc": ["codewords with parity"],
          "place": ["placement"], "lookup": ["symbol choice / attributes"], "decver": ["decoder size table: the 30 ECC 200 entries", "decoder size table: additional (DMRE) entries consistent"],
          "dmg": ["symbol as requested", "fault scripts: within capacity => decoded text unchanged"],
          "hl": ["terminates without panic", "refusal only when it does not fit", "codewords == reference encodation", "decode(codewords) == text", "read(image) == text"],
